@@ -557,10 +557,12 @@ fn main() {
         let len = rng.range(20, long_max as u64) as usize;
         cases.push(CaseSpec { src: "random", mode: if pipelined { "pipelined" } else { "awaited" }, big: rng.chance(1, 2), steps: random_history(&mut rng, len, pipelined) });
     }
+    let mut rng_offset = 0usize; // keeps the per-case random choices of a replayed case identical to the original run
     if let Some(only) = a.get("--only-case") {
         let k: usize = only.parse().unwrap();
         let c = cases.swap_remove(k);
         cases = vec![c];
+        rng_offset = k;
     }
 
     let mut server = Server::start(&adlt, &work, "c15", if throttle == "none" { None } else { Some(&throttle) });
@@ -577,7 +579,8 @@ fn main() {
             if k >= cases.len() {
                 break;
             }
-            let mut rng = Rng::new(seed ^ ((k as u64) << 20) ^ w as u64 * 0); // per case, independent of the worker
+            let _ = w;
+            let mut rng = Rng::new(seed ^ (((k + rng_offset) as u64) << 20)); // per case, independent of the worker
             let evs = run_case(port, k, &cases[k], &files, &mut rng);
             results.lock().unwrap().push((k, evs));
         }));
